@@ -119,7 +119,7 @@ func runCmd(dir string, env []string, name string, args ...string) (string, erro
 }
 
 // build instruments the repository and builds the worker; returns the scratch dir and binary.
-func build() (scratch, worker, inputHash string) {
+func build(race bool) (scratch, worker, inputHash string) {
 	base := "/dev/shm"
 	if st, err := os.Stat(base); err != nil || !st.IsDir() {
 		base = filepath.Join(verifDir, ".build")
@@ -145,7 +145,13 @@ func build() (scratch, worker, inputHash string) {
 		inputHash = strings.TrimSpace(out[i+len("input_hash="):])
 	}
 	worker = filepath.Join(scratch, "worker")
-	out, err = runCmd(verifDir, goEnv, "go", "build", "-overlay", filepath.Join(scratch, "overlay.json"), "-o", worker, "./harness/cmd/worker")
+	args := []string{"build", "-overlay", filepath.Join(scratch, "overlay.json"), "-o", worker}
+	if race {
+		// race mode: the runtime package itself stays uninstrumented (DESIGN.md §2.5)
+		args = append(args, "-race", "-gcflags=github.com/olive-io/bpmn/v2/verifrt=-race=false")
+	}
+	args = append(args, "./harness/cmd/worker")
+	out, err = runCmd(verifDir, goEnv, "go", args...)
 	if err != nil {
 		os.RemoveAll(scratch)
 		die("building the instrumented worker failed: %v\n%s", err, out)
@@ -183,9 +189,16 @@ func main() {
 	}
 	switch cmd {
 	case "replay":
-		scratch, worker, _ := build()
+		race := os.Getenv("VERIF_RACE") != ""
+		if b, err := os.ReadFile(arg); err == nil && (strings.Contains(string(b), `"property": "C17"`) || strings.Contains(string(b), `"property":"C17"`)) {
+			race = true
+		}
+		scratch, worker, _ := build(race)
 		defer os.RemoveAll(scratch)
 		c := exec.Command(worker, "-replay", arg)
+		if race {
+			c.Env = append(os.Environ(), "GORACE=halt_on_error=0 log_path="+filepath.Join(scratch, "race"), "VERIF_RACE_LOG="+filepath.Join(scratch, "race"))
+		}
 		c.Stdout, c.Stderr = os.Stdout, os.Stderr
 		err := c.Run()
 		os.RemoveAll(scratch)
@@ -196,7 +209,7 @@ func main() {
 			die("%v", err)
 		}
 	case "list":
-		scratch, worker, _ := build()
+		scratch, worker, _ := build(false)
 		c := exec.Command(worker, "-list", "-prop", arg, "-tier", tier)
 		c.Stdout, c.Stderr = os.Stdout, os.Stderr
 		c.Run()
@@ -214,7 +227,8 @@ func runCheck(prop, tier, only string, budgetOverride time.Duration) int {
 	if s := os.Getenv("VERIF_SEED"); s != "" {
 		seed, _ = strconv.Atoi(s)
 	}
-	scratch, worker, inputHash := build()
+	race := prop == "C17" || os.Getenv("VERIF_RACE") != ""
+	scratch, worker, inputHash := build(race)
 	defer os.RemoveAll(scratch)
 	buildS := time.Since(t0).Seconds()
 
@@ -273,6 +287,9 @@ func runCheck(prop, tier, only string, budgetOverride time.Duration) int {
 			defer wg.Done()
 			c := exec.Command(worker, "-serve", "-prop", prop, "-tier", tier, "-replays", replayDir, "-deadline", strconv.FormatInt(deadline.UnixNano(), 10))
 			c.Env = append(os.Environ(), "GOMAXPROCS=2")
+			if race {
+				c.Env = append(c.Env, "GORACE=halt_on_error=0 log_path="+filepath.Join(scratch, "race"), "VERIF_RACE_LOG="+filepath.Join(scratch, "race"))
+			}
 			stdin, _ := c.StdinPipe()
 			stdout, _ := c.StdoutPipe()
 			var stderr strings.Builder
